@@ -288,6 +288,17 @@ def _run(c, prog):
     prims = binary_prims()
     N = shape.Normaliser(prog, pairs())
     base_v = fld(("elem", ("in", "values")), "1")
+    # the local the decoder's inner `match` dispatches on, per wire type
+    scrut_lids, scrut_env = {}, {}
+    outer = tables.top_match(dfn, "binary_type")
+    for oarm in outer["arms"]:
+        inner = core.strip(oarm["body"])
+        if inner.get("k") == "Match":
+            sc = core.strip(inner["e"])
+            if sc.get("k") == "Path" and sc.get("res") == "local":
+                for alt in tables.pat_alts(oarm["pat"]):
+                    if alt[0] == "v":
+                        scrut_lids.setdefault(vname(alt[1]), set()).add(sc["lid"])
     n_arms = 0
     for T in sorted(earms):
         if T == "_":
@@ -313,7 +324,9 @@ def _run(c, prog):
             try:
                 Ir = BinInterp(prog, prims=prims, depth=8, opaque=wire.OPAQUE)
                 try:
-                    Ir.eval(darm["body"], {})
+                    # inside the arm for declared type V the inner match's scrutinee *is* VariantType::V
+                    # (an arm shared by several declared types may branch on it again)
+                    Ir.eval(darm["body"], {lid: var(common.VARIANT_TYPE + "::" + V) for lid in scrut_lids.get(T, ())})
                 except sym.Exit:
                     pass
             except sym.Unsupported as e:
